@@ -162,7 +162,7 @@ func (m *machine) pickNext(cur *thread, what string) *thread {
 	if len(cands) == 1 {
 		return cands[0]
 	}
-	k := m.choose(len(cands), "sched:"+what)
+	k := m.chooseSym(len(cands), "sched")
 	if curEnabled && k != 0 {
 		m.preemptions++
 	}
@@ -195,7 +195,7 @@ func (m *machine) afterExit(t *thread) *thread {
 	if !m.exploreSched || len(en) == 1 {
 		return en[0]
 	}
-	k := m.choose(len(en), "sched:exit")
+	k := m.chooseSym(len(en), "sched")
 	m.schedTrace = append(m.schedTrace, en[k].id)
 	return en[k]
 }
@@ -386,7 +386,7 @@ func (th *thread) selectStmt(fr *frame, instr *ssa.Select) value {
 	k := 0
 	if len(rd) > 1 {
 		if m.exploreSched {
-			k = m.choose(len(rd), "select")
+			k = m.chooseSym(len(rd), "select")
 		}
 	}
 	chosen := rd[k]
